@@ -58,6 +58,12 @@ def c13_obs(prop):
     return obs
 
 
+C12_FLAGS = ["-unwind", "64", "-concrete-clock", "-solver", "cvc5", "-fallback", "z3", "-query-timeout-ms", "10000"]
+C12_ASSUME = ["the real Scheduler.Schedule runs one step with the real Node.setup / Execute / teardown over the file-system model",
+              "scripted executor delivers one stdout and one stderr chunk per attempt through os/exec's copying discipline (vfCopyTo: *os.File direct; io.ReaderFrom => ReadFrom; else Write)",
+              "bufio.Writer model: 4096-byte buffer, large-write and ReadFrom bypass as in Go 1.23 (DESIGN 3.2); no I/O errors",
+              "deterministic clock (distinct instants): log paths of different attempts differ"]
+
 PROPS = {    "C01": {
         "obligations": [
             {"name": "C01.gate", "pkg": SCHED, "replay": "R1",
@@ -174,6 +180,27 @@ PROPS = {    "C01": {
         ],
         "assumptions": ["distinct step names", "recorded steps listed in a topological order (as the builder produces them is NOT assumed by the code; the harness builds deps j<i)"],
         "outside_claim": COMMON_OUTSIDE + ["parameter values of the recorded run (regexp submatch semantics; DESIGN section 7)"],
+    },
+    "C11": {
+        "obligations": [
+            {"name": "C11.out", "pkg": SCHED, "replay": "R1t", "labels_unordered": True, "label_prefixes": ["C11."], "must_assert": ["C11.out/captured-output-is-trimmed-stdout-in-environment"],
+             "quick": {"entry": "VerifHarness_C12_bytes", "flags": C12_FLAGS, "sample_paths": 2, "bounds": {"attempts": "1..2", "chunk_len": "<= 6 bytes (ASCII)", "config": "stdout file x stderr file x output variable"}},
+             "thorough": {"entry": "VerifHarness_C12_bytes3", "flags": C12_FLAGS, "sample_paths": 2, "bounds": {"attempts": "1..3", "chunk_len": "<= 6 bytes (ASCII)"}}},
+        ],
+        "assumptions": C12_ASSUME,
+        "outside_claim": COMMON_OUTSIDE + ["parameters ($1..$n, NAME=value, quoting, the parse/join/re-parse round trip): decided by regexp submatch semantics, not applicable to this technique (DESIGN section 7)",
+                                           "visibility of the captured value to later steps' child processes (C11.see) and outputs larger than the pipe capacity (C11.big): not built", "non-ASCII output"],
+    },
+    "C12": {
+        "obligations": [
+            {"name": "C12.bytes", "pkg": SCHED, "replay": "R1t", "labels_unordered": True, "label_prefixes": ["C12."], "must_assert": ["C12.bytes/log-holds-last-attempt-stdout", "C12.bytes/stdout-file-holds-last-attempt-stdout"],
+             "quick": {"entry": "VerifHarness_C12_bytes", "flags": C12_FLAGS, "sample_paths": 2, "bounds": {"attempts": "1..2", "chunk_len": "<= 6 bytes (ASCII)", "config": "stdout file x stderr file x output variable"}},
+             "thorough": {"entry": "VerifHarness_C12_bytes3", "flags": C12_FLAGS, "sample_paths": 2, "bounds": {"attempts": "1..3"}}},
+            {"name": "C12.big", "pkg": SCHED, "replay": "R1t", "labels_unordered": True, "label_prefixes": ["C12."],
+             "quick": {"entry": "VerifHarness_C12_big", "flags": C12_FLAGS, "sample_paths": 0, "bounds": {"attempts": "1..2", "chunk_len": "<= 10000 bytes, symbolic (crosses the 4096-byte bufio boundary)", "config": "stdout file x stderr file"}}},
+        ],
+        "assumptions": C12_ASSUME,
+        "outside_claim": COMMON_OUTSIDE + ["byte interleaving between stdout and stderr", "real pipes and child processes", "log path collisions within one millisecond (deterministic clock)", "I/O errors"],
     },
     "C13": {
         "obligations": c13_obs("C13"),
